@@ -291,6 +291,22 @@ def run(rep: Report, tier: str) -> None:
                                 f"{ty7!r}, expected {want7!r} (get_decimal_config reports {cfg7}): Number values are then stored and added in another type than the configuration states - with "
                                 f"DOUBLE, 0.1 + 0.2 returns 0.30000000000000004 and values that do not fit the DECIMAL are accepted"))
     rep.floor("R30.7 accepted settings evaluated", n7, 30)
+    # ---- R30.8: every connection re-reads and re-validates the settings ----
+    rep.rule("R30.8", "configure_duckdb_connection reaches set_decimal_config() on every normal path, and no function of the configuration module keeps a process-global besides the "
+                      "reviewed DECIMAL_WIDTH / DECIMAL_SCALE: a remembered 'already handled' marker lets a rejected setting pass the second time")
+    from sa.cfg import CFG as _CFG8
+    fcc = P.func(f"{CFGMOD}.configure_duckdb_connection")
+    g8 = _CFG8(fcc.node)
+    must8 = [n for n in g8.nodes if any(isinstance(c, ast.Call) and (getattr(c.func, "id", "") or getattr(c.func, "attr", "")) == "set_decimal_config" for c in g8.calls_at(n))]
+    rep.instance("R30.8", "configure/set_decimal_config-on-every-path", nontrivial=True, sample={"call_sites": len(must8)})
+    p8 = g8.path_avoiding(g8.entry, lambda n: n is g8.exit, lambda n: n in must8, follow_exc=False)
+    if not must8 or p8 is not None:
+        from sa.cfg import describe_path as _dp8
+        rep.add(Finding("R30.8", "R30.8/configure/set_decimal_config-on-every-path", fcc.module.rel, fcc.node.lineno, fcc.qualname,
+                        "configure_duckdb_connection can configure a connection without calling set_decimal_config(): the settings of this run are then neither read nor validated - an "
+                        "out-of-range setting repeated in the same process is accepted and Numbers are stored in the DECIMAL type of an earlier run", _dp8(p8) if p8 else None))
+    from sa import globalsx as _gx8
+    _gx8.report_written_globals(P, rep, "R30.8", (CFGMOD,), "the outcome of a setting then depends on the settings of earlier runs in the same process")
     rep.assumptions = ["DuckDB typing rule DECIMAL(w,s) requires s ≤ w ≤ 38 (external fact)",
                        "os.getenv / os.environ.get modelled as a mapping lookup returning the string value or the default"]
 
